@@ -69,7 +69,8 @@ def run(tier):
     nontrivial = set()
     outcomes = set()
     per_op_fail = {}
-    for (e, choices, payload, what), r in zip(meta, resps):
+    suspects = []
+    for (e, choices, payload, what), r, q in zip(meta, resps, reqs):
         case = {"schema": "CORE", "query": e["query"], "payload": payload, "entry": what, "focus": e["focus"],
                 "items": e["labels"]}
         if r is None:
@@ -88,6 +89,7 @@ def run(tier):
             if per_op_fail.get(key, 0) < 3:
                 per_op_fail[key] = per_op_fail.get(key, 0) + 1
                 rep.violation("deser_err", case, r["err"], kfpred.sigs_at(sigs))
+                suspects.append((q, r))
             continue
         out, conflicts = gql.loads_keep_duplicates(r["out"])
         diffs = ex.compare(op, payload, out)
@@ -100,9 +102,11 @@ def run(tier):
                 per_op_fail[key] = per_op_fail.get(key, 0) + 1
                 rep.violation("content_loss", dict(case, output=r["out"]), diffs[:5],
                               kfpred.sigs_at(sigs, [d[0] for d in diffs]), groups=kfpred.sig_groups(sigs, [d[0] for d in diffs]))
+                suspects.append((q, r))
         else:
             outcomes.add("ok")
             nontrivial.add(e["case"])
+    farm.confirm(suspects[:400])
     invalid = [e for e in entries if e["errs"]]
     unsupported = [e for e in entries if not e["errs"] and e["gen"] != "ok"]
     notcompiling = [e for e in entries if e["case"] and not e["compiles"]]
